@@ -134,12 +134,10 @@ def solve_one(job):
             r, dt = _check_cvc5(smt2, CVC5_TIMEOUT_S, fmf=True)
             res["backends"]["cvc5-1.0.3-fmf"] = dict(result=r, seconds=round(dt, 3))
         if r == "unknown":
-            r, dt = _check_z3_cli_model(smt2, CVC5_TIMEOUT_S)
+            r, dt = _check_z3_cli_model(smt2, 10)
             res["backends"]["z3-5.1-cli-noematch"] = dict(result=r, seconds=round(dt, 3))
-        if r == "unknown":
-            r, dt, model, reason = _check_z3(smt2, Z3_TIMEOUT_MS, seed)
-            res["backends"]["z3-5.1-b"] = dict(result=r, seconds=round(dt, 3), reason=reason)
-        res["verdict"] = {"sat": "proved", "unsat": "refuted", "unknown": "unknown"}[r]
+        # sat: reachable; unsat: VACUOUS (contradictory assumptions); unknown: not shown contradictory within budget
+        res["verdict"] = {"sat": "proved", "unsat": "refuted", "unknown": "cover-unknown"}[r]
         return res
     r, dt, model, reason = _check_z3(smt2, Z3_TIMEOUT_MS, seed)
     res["backends"]["z3-5.1"] = dict(result=r, seconds=round(dt, 3), reason=reason)
